@@ -23,7 +23,7 @@ func (c11) ID() string { return "C11" }
 func (c11) Meta() Meta {
 	return Meta{
 		Level:       "exploration",
-		Rule:        "differential + reference-model monitor on the multi-path fixture workspaces (module inputs as path origins, module outputs as implied origins, module source as direct origin, count/each/self local names in several blocks) and generated reference-heavy workspaces, base files and seeded broken states: for every collected origin and several cursor bytes inside it, ReferenceTargetsForOriginAtPos is called; (i) every reported declaration must carry the origin's address (absolute, or block-local with the origin inside the declaration's visible-from range) in the collected targets of the reported path, (ii) block-local names (count.*, each.*, self.*) resolve only to local declarations whose visible-from range contains the origin, (iii) path origins resolve in their target path, (iv) for every reported declaration with a definition range, ReferenceOriginsTargetingPos asked at that definition range (its start and a middle byte) must report this origin (path + range), (v) a type-less origin whose address and scope equal a type-less declaration must resolve to it. distinct non-trivial = (origin, declaration) pairs checked for the inverse, keyed by origin kind {local, block-local name, path/implied} and source.",
+		Rule:        "differential + reference-model monitor on the multi-path fixture workspaces (module inputs as path origins, module outputs as implied origins, module source as direct origin, count/each/self local names in several blocks; tf-twins: two root modules with byte-identical files calling one child module, so that origins of different paths share file name and range) and generated reference-heavy workspaces, base files and seeded broken states: for every collected origin and several cursor bytes inside it, ReferenceTargetsForOriginAtPos is called; (i) every reported declaration must carry the origin's address (absolute, or block-local with the origin inside the declaration's visible-from range) in the collected targets of the reported path, (ii) block-local names (count.*, each.*, self.*) resolve only to local declarations whose visible-from range contains the origin, (iii) path origins resolve in their target path, (iv) for every reported declaration with a definition range, ReferenceOriginsTargetingPos asked at that definition range (its start and a middle byte) must report this origin (path + range), (v) a type-less origin whose address and scope equal a type-less declaration must resolve to it. distinct non-trivial = (origin, declaration) pairs checked for the inverse, keyed by origin kind {local, block-local name, path/implied} and source.",
 		Assumptions: []string{"declarations without a definition range and direct origins (no declaration) are only range-checked by C02"},
 		Floor:       map[string]int{"quick": 40, "thorough": 200},
 		CaseBudget:  60,
